@@ -24,6 +24,7 @@
 #include "util/slice.h"
 
 #include "skiplist.h"
+#include "util/verif.h"
 
 /* Thread safety
  * -------------
@@ -343,6 +344,7 @@ ldb_skiplist_insert(ldb_skiplist_t *list, const uint8_t *key) {
        when we publish a pointer to "x" in prev[i]. */
     ldb_skipnode_set_nb(x, i, ldb_skipnode_next_nb(prev[i], i));
     ldb_skipnode_set(prev[i], i, x);
+    LDB_VERIF_POINT(LDB_VP_SKIPLIST_LINK, list, i, height);
   }
 
   SKIP_UNLOCK(list->mutex);
